@@ -18,6 +18,7 @@ def run(ctx, R, tier):
     assign_ops(F, R)
     c17.mapping(F, R)
     speed_units(F, R)
+    speed_conversions(F, R)
     semitones(F, R)
     # the easings are built from powers: their domain conditions are obligations (A.singular)
     from ..enginea import run_singular_only
@@ -284,6 +285,40 @@ def cmp_(F, R):
             why = 'a path does not compare the clocks'
     R.check(ok and seen == {'different-clock', 'equal-ticks', 'ticks'}, 'B.C19.cmp', 'partial_cmp', why or 'branches %s' % sorted(seen),
             detail={'branches': sorted(seen)}, where=b.file)
+
+
+def speed_conversions(F, R, rule='B.C19.speed-conv'):
+    """"The three clock-speed units convert consistently": each of the three `as_*` accessors of ClockSpeed has exactly one
+    outcome per variant, and it is the unit conversion itself - the payload, its reciprocal, or the payload times / divided
+    by 60 - with no special case for particular values (a zero that converts to 0 seconds per tick would be an infinitely
+    fast clock in one unit and a stopped one in the others)."""
+    import re
+    P_ = {'SecondsPerTick': 's', 'TicksPerSecond': 'tps', 'TicksPerMinute': 'tpm'}
+    WANT = {('as_seconds_per_tick', 's'): 'X', ('as_seconds_per_tick', 'tps'): 'Div(1.0, X)', ('as_seconds_per_tick', 'tpm'): 'Div(60.0, X)',
+            ('as_ticks_per_second', 's'): 'Div(1.0, X)', ('as_ticks_per_second', 'tps'): 'X', ('as_ticks_per_second', 'tpm'): 'Div(X, 60.0)',
+            ('as_ticks_per_minute', 's'): 'Div(60.0, X)', ('as_ticks_per_minute', 'tps'): 'Mul(X, 60.0)', ('as_ticks_per_minute', 'tpm'): 'X'}
+    n = 0
+    for fn in ('as_seconds_per_tick', 'as_ticks_per_second', 'as_ticks_per_minute'):
+        b = F.body('clock::clock_speed::ClockSpeed::' + fn)
+        if not R.check(b is not None, rule, 'anchor:' + fn, 'ClockSpeed::%s not found' % fn):
+            continue
+        got = {}
+        for p in explore(b):
+            if p.end != 'return':
+                continue
+            var = [l for _, d, l in p.decisions if d.startswith('discr(') and l in P_]
+            others = [d for _, d, l in p.decisions if not (d.startswith('discr(') and l in P_)]
+            r = re.sub(r'\((?:\(\*+self\)|\*+self|self) as \w+\)\.0', 'X', str(p.ret))
+            r = r.replace('Mul(60.0, X)', 'Mul(X, 60.0)')
+            got.setdefault(P_[var[0]] if len(var) == 1 else '?', []).append((r, others))
+        for v in ('s', 'tps', 'tpm'):
+            n += 1
+            g = got.get(v, [])
+            ok = len(g) == 1 and g[0][0] == WANT[(fn, v)] and not g[0][1]
+            R.check(ok, rule, '%s|%s' % (fn, v), 'ClockSpeed::%s of a %s speed is %s (expected the plain conversion %s, one outcome, no special cases)'
+                    % (fn, v, [(r, o[:1]) for r, o in g][:3], WANT[(fn, v)]), detail={'conversion': WANT[(fn, v)]}, where=b.file)
+        R.check('?' not in got, rule, fn + '|unmatched', 'ClockSpeed::%s has an outcome that does not belong to one variant' % fn, nontrivial=False)
+    R.floor(rule, n, 9)
 
 
 def speed_units(F, R, rule='B.C19.speed-units'):
